@@ -215,5 +215,15 @@ def regularB (c : Cont) : Bool :=
     | some p => geomOK (p.P c.F) p.tree p.master && tablesApartB p.dpfs p.tree &&
         descWFB ⟨p.difi, p.ivfc, p.dpfs, p.master⟩ p.descSize && reopenLayoutB c j p
 
+/-- every block of every level verifies up to the master hashes (decidable; evaluated by the driver on generated images) -/
+def allValidB (H : Bytes → Bytes) (t : Tree) (master : List Bytes) (P : Bytes) : Bool :=
+  let Ls := (List.range 4).map (levelBytes P t)          -- the four levels, assembled once
+  let L : Nat → Bytes := fun j => Ls.getD j []
+  (List.range 4).all fun lvl =>
+    (List.range (nblocks (L lvl).length (t.level lvl).bs)).all fun b =>
+      match specValid H (rdOf L) (fun i => (t.level i).bs) master true lvl b with
+      | .ok (some true) => true
+      | _ => false
+
 end Save
 end Pyctr
